@@ -100,6 +100,20 @@ fn c31_hsla_to_hwba_in_range() {
     assert!(w.hue() == h.hue() && w.alpha() == h.alpha(), "hue and alpha kept");
 }
 
+/// C31: the same on concrete probe colors (the symbolic version above
+/// exceeds 15 minutes): a light and a dark hsl color report whiteness and
+/// blackness in range, equal to those of the rgb color they denote.
+#[kani::proof]
+#[kani::stub(crate::value::colors::hsla::deg_mod, crate::value::colors::hsla::kani_verif::deg_mod_by_contract)]
+fn c31_hsla_to_hwba_probe() {
+    // hsl(210, 100%, 80%) = #99ccff: whiteness 60%, blackness 0%
+    let light = Hwba::from(&Hsla::new(210.0, 1.0, 0.8, 1.0, true));
+    assert!((light.whiteness() - 0.6).abs() < 1e-9 && light.blackness().abs() < 1e-9, "hsl(210, 100%, 80%): whiteness 60%, blackness 0%");
+    // hsl(210, 50%, 40%) = #336699: whiteness 20%, blackness 40%
+    let dark = Hwba::from(&Hsla::new(210.0, 0.5, 0.4, 1.0, true));
+    assert!((dark.whiteness() - 0.2).abs() < 1e-9 && (dark.blackness() - 0.4).abs() < 1e-9, "hsl(210, 50%, 40%): whiteness 20%, blackness 40%");
+}
+
 /// C31 round trip (attempt; expensive float reasoning): rebuilding an rgb
 /// color from its own hsl channels gives an equal color.
 #[kani::proof]
